@@ -21,15 +21,9 @@ func manyKeysHistory(r *engine.Run) {
 		n = 1 << 17
 	}
 	r.Rule += fmt.Sprintf(" Many-keys history: one sequence of %d x 4 calls (EncryptFRMPayload, EncryptFOpts, join-accept encrypt + decrypt) each under a key not used before in the process, with every 64th step returning to earlier keys; each result is compared with the specification's key stream / ECB value for that key.", n)
+	r.Rule += collidingRule()
 	r.PartWorkers("history/many-keys", []string{fmt.Sprintf("distinct keys:%d", n), "call:4"}, 1, 1, func(c *engine.Case) {
-		keyOf16 := func(i int) []byte {
-			k := make([]byte, 16)
-			for j := range k {
-				k[j] = byte(0x40 + j)
-			}
-			k[0], k[5], k[10], k[15] = byte(i), byte(i>>8), byte(i>>16), byte(i*7)
-			return k
-		}
+		keyOf16 := manyKey
 		plain := fillBytes(21, 0x31)
 		step := func(i int) bool {
 			key := keyOf16(i)
@@ -91,6 +85,16 @@ func manyHistoryRun(n int, step func(i int) bool) bool {
 			}
 		}
 	}
+	// the fingerprint-colliding key pairs (collide.go), each used back to back
+	t, _ := collidingKeys()
+	for p := 0; p < len(t)/2; p++ {
+		a := collisionKeyBase + 2*p
+		for _, i := range []int{a, a + 1, a, a + 1} {
+			if !step(i) {
+				return false
+			}
+		}
+	}
 	return true
 }
 
@@ -102,8 +106,12 @@ func manyHistoryN(r *engine.Run) int {
 	return 4096
 }
 
-// manyKey is key number i of a many-keys history (pairwise distinct for i < 2^24).
+// manyKey is key number i of a many-keys history (pairwise distinct for i < 2^23; from collisionKeyBase on, the fingerprint-colliding keys of collide.go).
 func manyKey(i int) []byte {
+	if i >= collisionKeyBase {
+		t, _ := collidingKeys()
+		return append([]byte(nil), t[(i-collisionKeyBase)%len(t)]...)
+	}
 	k := make([]byte, 16)
 	for j := range k {
 		k[j] = byte(0x40 + j)
@@ -116,6 +124,7 @@ func manyKey(i int) []byte {
 func manyKeysMIC(r *engine.Run) {
 	n := manyHistoryN(r)
 	r.Rule += fmt.Sprintf(" Many-keys history: %d steps, each a Set + Validate of a data MIC (direction, MAC version alternating) under integrity keys not used before in the process, returning to earlier keys every 64th step; compared with the specification MIC.", n)
+	r.Rule += collidingRule()
 	r.PartWorkers("history/many-keys", []string{fmt.Sprintf("distinct key pairs:%d", n)}, 1, 1, func(c *engine.Case) {
 		ok := manyHistoryRun(n, func(i int) bool {
 			c.Eval()
@@ -151,6 +160,7 @@ func manyKeysMIC(r *engine.Run) {
 func manyKeysJoin(r *engine.Run) {
 	n := manyHistoryN(r)
 	r.Rule += fmt.Sprintf(" Many-keys history: %d steps, each a join-request MIC, a rejoin-request MIC and a join-accept MIC (1.0 / OptNeg form alternating) under a key not used before in the process, returning to earlier keys every 64th step; compared with the specification CMACs.", n)
+	r.Rule += collidingRule()
 	r.PartWorkers("history/many-keys", []string{fmt.Sprintf("distinct keys:%d", n), "call:3"}, 1, 1, func(c *engine.Case) {
 		ok := manyHistoryRun(n, func(i int) bool {
 			c.Eval()
@@ -217,6 +227,7 @@ func manyKeysJoin(r *engine.Run) {
 func manySessions(r *engine.Run) {
 	n := manyHistoryN(r) / 4
 	r.Rule += fmt.Sprintf(" Many-sessions history: %d devices with their own session keys, each exchanging one 1.1 downlink (MAC commands in encrypted FOpts + encrypted payload) and one 1.0 uplink through encrypt, MIC, the wire, validation and decryption, returning to earlier devices every 64th step; the frames of a batch (1, 8, 96, 700 devices in turn) are all sent before the first is received: the receiver recovers exactly what was sent and a flipped payload byte is rejected.", n)
+	r.Rule += collidingRule()
 	r.PartWorkers("history/many-sessions", []string{fmt.Sprintf("devices:%d", n), "frames:2", "batch sizes: 1, 8, 96, 700"}, 1, 1, func(c *engine.Case) {
 		type sent struct {
 			dev  int
